@@ -1,7 +1,7 @@
 (* Properties/C01.v -- literal text and the documented escapes are reproduced exactly.
    The lexer model follows the matcher order regenerated from lexer.py; every theorem holds for
    every template string (no bound on length). *)
-From MakoV Require Import Lib.Str Gen.Unicode Gen.LexerOrder Gen.Parsetree Model.Lexer Proofs.LexerProofs.
+From MakoV Require Import Lib.Str Gen.Unicode Gen.LexerOrder Gen.Parsetree Model.Lexer Proofs.LexerProofs Proofs.LexerEscapes.
 Open Scope N_scope.
 
 (* nothing dropped, nothing duplicated: the source slices of the events of a successful lex,
@@ -28,6 +28,77 @@ Theorem C01_parse_until_fuel_independent : forall nest stops s extra,
   put_loop (S (length s) + extra) nest stops [] s lv0 = parse_until nest stops s.
 Proof. exact parse_until_fuel_independent. Qed.
 Print Assumptions C01_parse_until_fuel_independent.
+
+(* ---- the documented escapes, as equations about what a successful lex writes ([output s] is the concatenation of
+   what the events of [lex s] emit).  [plain]: no < $ % # \ ;  [nolt]: no < ;  [linetext]: no \ CR LF -------------- *)
+
+(* directive-free text of any length is one Text node holding exactly that text, and lexing succeeds *)
+Theorem C01_plain_text_is_one_text_node : forall s, plain s = true -> s <> [] ->
+  lex s = ([{| ev_kind := KText s; ev_src := s; ev_line := 1; ev_pos := 1 |}], LexOk).
+Proof. exact plain_text_one_node. Qed.
+Print Assumptions C01_plain_text_is_one_text_node.
+
+Theorem C01_plain_text_written_exactly : forall s, plain s = true -> output s = s /\ snd (lex s) = LexOk.
+Proof. exact plain_text_identity. Qed.
+Print Assumptions C01_plain_text_written_exactly.
+
+(* a backslash directly before a newline (LF or CR LF) removes both and nothing else *)
+Theorem C01_backslash_newline_removed : forall a w nl t,
+  plain a = true -> plain t = true -> eat_newline w = Some (nl, t) ->
+  output (a ++ cBSLASH :: w) = a ++ t /\ snd (lex (a ++ cBSLASH :: w)) = LexOk.
+Proof. exact continuation_removes_newline. Qed.
+Print Assumptions C01_backslash_newline_removed.
+
+Theorem C01_backslash_lf_and_crlf : forall a t, plain a = true -> plain t = true ->
+  output (a ++ [cBSLASH; LF] ++ t) = a ++ t /\ output (a ++ [cBSLASH; CR; LF] ++ t) = a ++ t.
+Proof. exact continuation_lf_crlf. Qed.
+Print Assumptions C01_backslash_lf_and_crlf.
+
+(* a line-leading double percent yields one percent: at the start of the template and after any earlier line *)
+Theorem C01_percent_escape_at_start : forall t, plain t = true ->
+  output (cPCT :: cPCT :: t) = cPCT :: t /\ snd (lex (cPCT :: cPCT :: t)) = LexOk.
+Proof. exact percent_escape_at_start. Qed.
+Print Assumptions C01_percent_escape_at_start.
+
+Theorem C01_percent_escape_after_line : forall x a t,
+  plain (x :: a) = true -> is_space x = false -> plain t = true ->
+  let s := (x :: a ++ [LF]) ++ cPCT :: cPCT :: t in
+  output s = (x :: a ++ [LF]) ++ cPCT :: t /\ snd (lex s) = LexOk.
+Proof. exact percent_escape_after_line. Qed.
+Print Assumptions C01_percent_escape_after_line.
+
+(* a double-hash line vanishes together with its terminator (LF or CR LF), the lines around it stay *)
+Theorem C01_hash_comment_vanishes : forall x a c nlw nl t,
+  plain (x :: a) = true -> is_space x = false -> linetext c = true -> eat_newline nlw = Some (nl, t) -> plain t = true ->
+  let s := (x :: a ++ [LF]) ++ cHASH :: cHASH :: c ++ nlw in
+  output s = (x :: a ++ [LF]) ++ t /\ snd (lex s) = LexOk.
+Proof. exact hash_comment_vanishes. Qed.
+Print Assumptions C01_hash_comment_vanishes.
+
+(* a doc section vanishes (its body may hold anything but a < : directives, percent signs, newlines) *)
+Theorem C01_doc_section_vanishes : forall a body t,
+  plain a = true -> nolt body = true -> plain t = true ->
+  let s := a ++ s2l "<%doc>" ++ body ++ s2l "</%doc>" ++ t in
+  output s = a ++ t /\ snd (lex s) = LexOk.
+Proof. exact doc_section_vanishes. Qed.
+Print Assumptions C01_doc_section_vanishes.
+
+(* the body of a text section is emitted verbatim, whatever it holds (anything but a <) *)
+Theorem C01_text_section_verbatim : forall a body t,
+  plain a = true -> nolt body = true -> plain t = true ->
+  let s := a ++ s2l "<%text>" ++ body ++ s2l "</%text>" ++ t in
+  output s = a ++ body ++ t /\ snd (lex s) = LexOk.
+Proof. exact text_section_verbatim. Qed.
+Print Assumptions C01_text_section_verbatim.
+
+(* the hypotheses are met by ordinary text, and the bodies really may hold directive characters *)
+Example C01_escape_hypotheses_nonvacuous :
+  plain (s2l "Hello, world: 100 + 1 = 101 (ok) é") = true /\
+  nolt (s2l "${x} % if y: ## \ /%doc> %>") = true /\
+  linetext (s2l " a comment with ${x} and <%text>") = true /\
+  eat_newline (CR :: LF :: s2l "next") = Some ([CR; LF], s2l "next") /\
+  output (s2l "a <%text>${x} %y</%text> b") = s2l "a ${x} %y b".
+Proof. vm_compute. repeat split; reflexivity. Qed.
 
 (* not proved (visible, asserted nowhere): the polynomial-time clause.  The re engine's cost is
    not modelled; the check measures it and known finding C01-F3 records an exponential family. *)
